@@ -680,3 +680,42 @@ def explore_dfs(run_once, kmax, limit=100000):
             for alt in tids:
                 if alt != c:
                     stack.append(tuple(x[0] for x in tr[:i]) + (alt,))
+
+
+class LabelledPreemptions(PreemptionList):
+    """PreemptionList that also records, for every contested point, which
+    thread was running and why (e.g. 'line:123') so that sweeps can target
+    distinct program points"""
+
+    def __init__(self, preemptions, rotate=0):
+        PreemptionList.__init__(self, preemptions, rotate)
+        self.labels = []
+
+    def __call__(self, n, me, en, why, sched):
+        self.labels.append((sched.contested, me.name, why))
+        return PreemptionList.__call__(self, n, me, en, why, sched)
+
+
+def single_preemption_sweep(run_once, max_points=400, occurrences=1, threads=2):
+    """
+    Bounded-exhaustive exploration of all schedules with ONE preemption at a
+    distinct program point: a first run without preemption lists the contested
+    yield points with their labels; then, for the first `occurrences`
+    occurrences of every distinct (thread, label), the program is re-run with
+    a preemption there towards each other thread.
+    run_once(chooser) -> verdict.  Yields (preemption or None, verdict, chooser).
+    """
+    base = LabelledPreemptions([])
+    verdict = run_once(base)
+    yield None, verdict, base
+    seen = {}
+    points = []
+    for k, name, why in base.labels:
+        key = (name, why)
+        seen[key] = seen.get(key, 0) + 1
+        if seen[key] <= occurrences:
+            points.append((k, name, why))
+    for k, name, why in points[:max_points]:
+        for j in range(max(1, threads - 1)):
+            ch = LabelledPreemptions([(k, j)])
+            yield (k, j, name, why), run_once(ch), ch
